@@ -32,7 +32,8 @@ simple("C06", "model_checking",
        "upper-case ACE, plain ASCII, raw non-ASCII, empty label) through to_ascii, to_unicode, parse and set_hostname: state carried from one "
        "label to the next; plus a position sweep (0..70 ASCII padding bytes, dotted or <=40 inside the label, before / between / after 8 kinds of "
        "non-ASCII material: 2,688 domains); (5) hostname of parse(\"https://<domain>/\") and set_hostname, both "
-       "URL types, raw and percent-encoded, vs refurl; (6) per-code-point table audits through is_label_valid verdicts on probe labels and normalize() output on mark pairs: "
+       "URL types, raw and percent-encoded, vs refurl; (5b) exhaustive single-code-point round trip: every IDNA-valid code point c as the labels {c}, {a c}, {c a} through to_ascii and back "
+       "through to_unicode, and the UTF-8/UTF-32 helpers against each other on every scalar value (alone, x2, x3, between ASCII); (6) per-code-point table audits through is_label_valid verdicts on probe labels and normalize() output on mark pairs: "
        "combining marks, virama, joining types, canonical combining class vs Unicode 17, Bidi class vs Unicode 15.1 on 15.1-assigned code "
        "points; (7) IdnaTestV2.json + toascii.json vectors. states = distinct results, transitions = evaluations, every evaluation is one "
        "model trace replayed on the implementation",
